@@ -8,7 +8,7 @@ mkdir -p work evidence replays
 (cd coq && ./mkproject.sh && (timeout 3000 make -k -j16 || echo "warning: some Coq files did not build; each check rebuilds and reports its own closure"))
 for spec in $(cat ocaml/drivers.txt | grep -v '^#' | tr ' ' ':'); do
   model=$(echo $spec | cut -d: -f1); driver=$(echo $spec | cut -d: -f2); out=$(echo $spec | cut -d: -f3)
-  (cd ocaml && ./build.sh $model $driver $out)
+  (cd ocaml && ./build.sh $model $driver $out) || echo "warning: driver $out not built (its check reports that itself)"
 done
 cp /repo/go.sum harness/go.sum 2>/dev/null || true
 (cd harness && go build -tags verif -o bin/ftdcverif .)
